@@ -187,6 +187,7 @@ class Builder:
         self.nodes, self.comps, self.subs, self.nns, self.ports, self.svcs, self.sps = {}, {}, {}, {}, {}, {}, {}
         self.log = []
         self.refusals = []
+        self.frame = []
 
     def get(self, d, k):
         k = tuple(k) if isinstance(k, list) else k
@@ -289,6 +290,23 @@ class Builder:
         elif k == 'disconnect':
             _, name, ref = op
             self.get(self.svcs, name).disconnect_interface(self.iface(ref))
+        elif k == 'rmnode':
+            t.remove_node(self.get(self.nodes, op[1]).name)
+        elif k == 'rmfac':
+            t.remove_facility(name=self.get(self.nodes, op[1]).name)
+        elif k == 'rmcomp':
+            _, node, cname = op
+            self.get(self.comps, (node, cname))
+            self.get(self.nodes, node).remove_component(name=cname)
+        elif k == 'rmsub':
+            _, node, comp, idx, sname = op
+            self.get(self.subs, (node, comp, idx, sname))
+            parent = self.iface(['c', node, comp, idx])
+            sub = self.subs[(node, comp, idx, sname)]
+            peers = sub.get_peers()
+            if peers:                     # as remove_component does: disconnect from the parent service first
+                self.t.get_parent_element(peers[0]).disconnect_interface(sub)
+            parent.remove_child_interface(name=sname)
         elif k == 'mirror':
             _, name, from_name, ref, site = op
             kw = {} if site is None else {'site': site}
@@ -329,10 +347,32 @@ class Builder:
                                   'after': after if before != after else None})
             raise
 
+    FRAMED = ('connect', 'disconnect', 'rmnode', 'rmfac', 'rmcomp', 'rmsub', 'nprop', 'baresp', 'direct', 'link', 'peer')
+
+    def service_props(self):
+        """name -> (type, site, truthy constrained properties) of every service: what only set_property on that
+        service (or validate's site inference) may change"""
+        out = {}
+        for name, s in self.t.network_services.items():
+            out[name] = [str(s.type), s.site if s.site else None, [p for p in SVC_PROPS if s.get_property(p)]]
+        return out
+
     def build(self, ops):
         for n, op in enumerate(ops):
+            framed = op[0] in self.FRAMED
             try:
-                self.run_op(op)
+                before = self.service_props() if framed else None
+            except Exception:
+                before = None
+            try:
+                try:
+                    self.run_op(op)
+                finally:
+                    if before is not None:
+                        after = self.service_props()
+                        for name, v in before.items():
+                            if name in after and after[name] != v:
+                                self.frame.append({'op': op, 'service': name, 'before': v, 'after': after[name]})
                 self.log.append('ok')
             except Skip:
                 self.log.append('skipped')
@@ -433,7 +473,7 @@ def run_recipe(ops):
             checkpoint()          # validating again what the last validation left
         last = phases[-2]
         return {'abs': last['abs'], 'res': last['res'], 'sites': last['sites'], 'build': b.log, 'phases': phases,
-                'refusals': b.refusals}
+                'refusals': b.refusals, 'frame': b.frame}
     except Exception as e:     # the extraction itself failed: reported as a harness problem, never hidden
         return {'abs': {'nodes': [], 'services': []}, 'res': 'HARNESS:' + type(e).__name__ + ':' + str(e)[:200],
                 'sites': [], 'build': b.log if b else [], 'phases': [], 'refusals': []}
@@ -758,6 +798,120 @@ def mutate_step(w, rng, sites):
             w.ops.append(['nprop', rng.choice(nds), rng.choice(['image', 'management_ip']), rng.random() < 0.5])
 
 
+def valid_base(w, stype, sites=('A', 'B')):
+    """a service of that type that meets every constraint; returns its name"""
+    layer, mn, mx, nsites, ninst, req, forb, rit = PIN_SERVICES[stype]
+    k = max(mn, 1)
+    placement = [sites[j % 2] if nsites != 1 else sites[0] for j in range(k)]
+    return gen_service(w, stype, k, placement, ['DedicatedPort'] * k, None,
+                       ['mirror_api'] if stype == 'PortMirror' else [], 'ctor')
+
+
+def single_defect_cases():
+    """for every service type a valid service, and the same with exactly ONE defect of each kind: the
+    accept/reject decision then hinges on that clause alone (always run in full, never sampled)"""
+    rnd = __import__('random').Random(10)
+    out = []
+    for stype in STYPES:
+        layer, mn, mx, nsites, ninst, req, forb, rit = PIN_SERVICES[stype]
+        k = max(mn, 1)
+
+        def base(kinds=None, placement=None, declared=None, props=None, kk=None, via='ctor'):
+            w = World(rnd)
+            n = k if kk is None else kk
+            pl = placement or [('A', 'B')[j % 2] if nsites != 1 else 'A' for j in range(n)]
+            nm = gen_service(w, stype, n, pl, kinds or ['DedicatedPort'] * n, declared,
+                             (props if props is not None else (['mirror_api'] if stype == 'PortMirror' else [])), via)
+            return w, nm
+        out.append(base()[0].ops)
+        out.append(base(via='connect')[0].ops)
+        if mn > 0 and k - 1 >= 0:
+            out.append(base(kk=mn - 1)[0].ops)                                   # one interface too few
+        if mx:
+            out.append(base(kk=mx + 1)[0].ops)                                   # one too many
+        if nsites:
+            n = max(k, nsites + 1)
+            if not mx or n <= mx:
+                out.append(base(kk=n, placement=['A', 'B', 'C', 'D'][:n])[0].ops)    # one site too many
+            if nsites == 1:
+                out.append(base(declared='B')[0].ops)                            # declared site disagrees
+                out.append(base(declared='A')[0].ops)                            # ... agrees
+            elif k >= 2:
+                out.append(base(declared='A')[0].ops)                            # declared on a multi-site service
+        for p in forb:
+            if p in SVC_PROPS:
+                out.append(base(props=(['mirror_api'] if stype == 'PortMirror' else []) + [p])[0].ops)
+        if stype == 'PortMirror':
+            out.append(base(props=['mirror_port'])[0].ops)                       # a required property missing
+            out.append(base(props=['mirror_direction'])[0].ops)
+            out.append(base(props=['mirror_port', 'mirror_direction'])[0].ops)
+        # interface types: every connectable kind in the first position (alone decisive for types that list them)
+        for kind in ['SharedPort', 'FacilityPort', 'SubInterface', 'AccessPort', 'TrunkPort', 'vInt', 'StitchPort']:
+            kinds = [kind] + ['DedicatedPort'] * (k - 1)
+            for via in ('ctor', 'connect'):
+                if (stype, kind) in PIN_GUARD:
+                    continue
+                out.append(base(kinds=kinds, via=via)[0].ops)
+        # a pair the guardrail refuses, brought in around connect_interface (as a loaded graph would): ServicePort + link
+        for (gs, gk) in PIN_GUARD:
+            if gs == stype:
+                w, nm = base(kk=k - 1)
+                ensure(w, gk, 'A')
+                f = w.take(kind=[gk], site='A')
+                w.ops += [['baresp', nm, 'lsp'], ['link', 'lnk1', [['sp', nm, 'lsp'], f[0]]]]
+                out.append(w.ops)
+        w, nm = base()
+        w.ops.append(['baresp', nm, 'bsp'])                                      # a ServicePort without peer
+        out.append(w.ops)
+    return out
+
+
+def reconnect_cases(rng, n):
+    """a service with a DECLARED or an INFERRED (validated) site loses all its interfaces -- by disconnect_interface,
+    or because the node / component / facility / sub-interface goes away -- and is connected again in the same
+    or in another site"""
+    out = []
+    for _ in range(n):
+        w = World(rng)
+        stype = rng.choice(['L2Bridge', 'L2Bridge', 'FABNetv4', 'FABNetv6Ext', 'PortMirror', 'L2STS', 'L2PTP', 'L2Path', 'VLAN',
+                            'L2Multisite'])
+        nsites = PIN_SERVICES[stype][3]
+        k = 1 if stype == 'PortMirror' else rng.choice([1, 1, 2])
+        s0 = rng.choice(SITES[:2])
+        how = rng.choice(['disconnect', 'disconnect', 'rmnode', 'rmcomp', 'rmfac', 'rmsub'])
+        kind = {'rmfac': 'FacilityPort', 'rmsub': 'SubInterface'}.get(how, 'DedicatedPort')
+        declared = rng.choice([s0, s0, None, rng.choice(SITES[:3])])
+        name = gen_service(w, stype, k, [s0] * k, [kind] * k, declared,
+                           ['mirror_port', 'mirror_direction'] if stype == 'PortMirror' else [], rng.choice(['ctor', 'connect']))
+        if rng.random() < 0.6:
+            w.ops.append(['validate'])
+        keep = 0 if rng.random() < 0.8 else 1                     # mostly: ALL interfaces go
+        refs = list(w.svc_refs[name])
+        for ref in refs[keep:]:
+            if how == 'disconnect':
+                w.ops.append(['disconnect', name, ref])
+            elif how == 'rmnode':
+                w.ops.append(['rmnode', ref[1]])
+            elif how == 'rmcomp':
+                w.ops.append(['rmcomp', ref[1], ref[2]])
+            elif how == 'rmfac':
+                w.ops.append(['rmfac', ref[1]])
+            else:
+                w.ops.append(['rmsub', ref[1], ref[2], ref[3], ref[4]])
+            w.svc_refs[name].remove(ref)
+        if rng.random() < 0.4:
+            w.ops.append(['validate'])
+        s1 = rng.choice([x for x in SITES[:3] if x != s0] + [s0])
+        for _ in range(rng.choice([1, 1, 2]) if stype != 'PortMirror' else 1):
+            ensure(w, 'DedicatedPort', s1)
+            f = w.take(kind=['DedicatedPort'], site=s1)
+            if f:
+                w.ops.append(['connect', name, f[0]])
+                w.svc_refs[name].append(f[0])
+        out.append(w.ops)
+    return out
+
+
 def session_cases(rng, n):
     """the two-site / one-site scenarios around a node that moves between validations"""
     out = []
@@ -858,13 +1012,15 @@ class Slices(Stream):
         for i in range(n):
             cases.append(random_case(rng, 1 if i % 25 else 0))
         cases += session_cases(rng, 120 if tier == 'quick' else 3000)
+        cases += reconnect_cases(rng, 100 if tier == 'quick' else 2500)
         rng.shuffle(cases)      # so that a time-limited prefix is a fair sample of the whole plan
-        self.precompute(self.corpus(), None)
+        always = single_defect_cases()      # never sampled, never cut by the budget
+        self.precompute(self.corpus() + always, None)
         budget = float(os.environ.get('VERIF_C10_BUDGET', '') or (80 if tier == 'quick' else 540))
         done = self.precompute(cases, budget, minimum=300)
         if done < len(cases):
             log('C10: observation budget of %.0f s reached after %d of %d planned cases' % (budget, done, len(cases)))
-        return cases[:done]
+        return always + cases[:done]
 
     def precompute(self, cases, budget, minimum=0):
         """the implementation runs take ~0.1 s each: run them in worker processes (same code path: run_recipe),
@@ -924,6 +1080,10 @@ class Slices(Stream):
             if not r['unchanged']:
                 return ('refusal-changed-slice: %s raised %s but left the slice modified (before %s / after %s)'
                         % (r['call'], r['exception'], json.dumps(r['before'])[:400], json.dumps(r['after'])[:400]))
+        for fr in o.get('frame', []):
+            return ('declared-state-changed: %s changed service %s from (type, site, properties) %s to %s; only set_property '
+                    'on the service or validate() may do that' % (json.dumps(fr['op']), fr['service'],
+                                                                json.dumps(fr['before']), json.dumps(fr['after'])))
         phases = o['phases']
         for k, ph in enumerate(phases):
             if ph['res'].startswith('HARNESS'):
